@@ -17,15 +17,25 @@ THEOREMS = [
 N = {"quick": 3000, "thorough": 40000}
 EXHAUSTIVE = {"quick": False, "thorough": False}
 RULE = ("cases = corpus + a systematic sweep of chunking shapes (n rules on one level x max_threads 1..16, thorough: every "
-        "n in 1..24; quick: n in 1,4,..,22 x selected thread counts) + N random configurations (1..24 typed-core rules with "
+        "n in 1..24; quick: n in 1,4,..,22 x selected thread counts; debug_mode alternating off / configured engine / both engines) "
+        "+ a contention family + N random cases: 17/24 plain configurations (1..24 typed-core rules with "
         "salience ties over 1..4 levels, enabled on/off, max_threads 1..16, min_rules_per_thread 1..4, parallelism on/off, "
-        "And/Or/Not condition trees to depth 3 over integer fields incl. a nested object and a never-present field, integer-literal and field-reference right-hand sides, "
-        "assignments that would flip other rules' verdicts if performed). Each case is executed on the real "
-        "ParallelRuleEngine::execute_parallel 2+reps times: once with enabled=false (the engine's own sequential path, S), "
-        "once as configured, and reps (3, thorough 4) times under seeded schedule points (hook rre_verif, yield/micro-sleep "
+        "And/Or/Not condition trees to depth 3 over fields incl. a nested object and a never-present field, integer-literal and "
+        "field-reference right-hand sides, a quarter of them with constants and fact values of every scalar type (Integer, integral "
+        "Number, Boolean, numeric-looking and word String), assignments that would flip other rules' verdicts if performed), "
+        "1/8 look-alike families (one level of single-comparison rules on one or two fields, mostly == / !=, constants that print "
+        "alike but differ in type - 25 / 25.0 / \"25\", true / \"true\" - as twins of each other, few threads so that they share a "
+        "worker's chunk), 1/6 sessions (ONE engine object per configuration run on two or three different KnowledgeBase objects of "
+        "the same name: same number of rules (same version()) but other conditions / saliences / enabled flags / names, the same "
+        "rules on other facts, or one rule more or fewer); debug_mode = true in half of the cases (configured engine, sequential "
+        "engine, or both; the engine's stdout goes to /dev/null). Each stage of a case is executed on the real "
+        "ParallelRuleEngine::execute_parallel 2+reps times on engine objects that live for the whole case: once with enabled=false "
+        "(the engine's own sequential path, S), "
+        "once as configured, and reps (3, thorough 4; sessions 1) times under seeded schedule points (hook rre_verif, yield/micro-sleep "
         "in the worker loop and before the critical section). The Lean model is run on the same case under a pseudo-random "
         "interleaving; S is compared exactly, every parallel run as (sorted (name,fired) multiset, evaluated, fired, facts "
-        "after). The Spec predicate C19.runOk (+ sameAsRun against S) is evaluated on every implementation run: counters = "
+        "after). The Spec predicate C19.runOk (+ sameAsRun against S) is evaluated on every implementation run of every stage, against "
+        "the reference of that stage's own rules and facts: counters = "
         "vector, same pairs/counts as the one-by-one reference, facts untouched, level segments in descending salience, each "
         "parallel segment = the chunk segments in some append order. Non-trivial = a level really ran on >= 2 worker threads "
         "and the case has both fired and non-fired rules; distinct = distinct case text.")
@@ -38,12 +48,15 @@ TRUSTED = [
     "harness/src/bin/c19.rs, Driver/C19.lean parsing/printing glue, check.py diff",
 ]
 ASSUMPTIONS = [
-    "typed core: Single(field op integer literal | field op other-field) / Compound And,Or / Not conditions over integer-valued flat or one-level nested "
-    "facts, ActionType::Set assignments; no custom functions registered, no accumulate/exists/forall/multifield/function-call conditions "
+    "typed core: Single(field op scalar literal | field op string literal-or-other-field) / Compound And,Or / Not conditions over scalar-valued "
+    "(Integer, integral Number, Boolean, String) flat or one-level nested facts, operators == != > >= < <= (== / != type-sensitive as Value's "
+    "PartialEq, ordering through to_number), ActionType::Set assignments; integers and integral floats within +-2^53 (i as f64 exact), string "
+    "literals are decimal integers or words that Rust's f64 parser rejects; no Null / Array / Expression values; no custom functions registered, no accumulate/exists/forall/multifield/function-call conditions "
     "(accumulate conditions and registered custom functions can write the shared facts: outside the theorem's ReadOnly hypothesis)",
     "max_threads >= 1 (max_threads = 0 panics in usize::div_ceil when a level is parallelised: modelled as an explicit error, corpus case)",
     "rule names are unique (KnowledgeBase::add_rule rejects duplicates); salience i32 modelled as Int",
-    "a worker thread does not panic (the typed-core evaluator has no panicking path); execution_time / parallel_speedup not observed",
+    "a worker thread does not panic (the typed-core evaluator has no panicking path); execution_time / parallel_speedup / the debug text not observed",
+    "the engine is stateless between calls (the model evaluates every call of a session as the same function of that call's rules and facts)",
 ]
 
 
@@ -55,8 +68,20 @@ def _canon(run):
     return run
 
 
-def agree(case, impl, model):
-    i, m = impl.split(), model.split()
+def _stages(line):
+    """observation / prediction -> list of stages, each a list of run tokens (stages are separated by `;;`)"""
+    out, cur = [], []
+    for t in line.split():
+        if t == ";;":
+            out.append(cur)
+            cur = []
+        else:
+            cur.append(t)
+    out.append(cur)
+    return out
+
+
+def _agree_stage(i, m):
     if len(m) != 2 or len(i) < 2:
         return False
     if i[0] != m[0]:                       # sequential path: exact, order included
@@ -65,14 +90,25 @@ def agree(case, impl, model):
     return all(t.startswith("P:") and _canon(t[2:]) == want for t in i[1:])
 
 
+def agree(case, impl, model):
+    si, sm = _stages(impl), _stages(model)
+    return len(si) == len(sm) and all(_agree_stage(i, m) for i, m in zip(si, sm))
+
+
 def classify(case, impl, model, oracle, kind):
     if kind == "oracle":
         import re
-        return "oracle:" + re.sub(r"P\d+", "P", oracle.replace("fail ", ""))
-    i, m = impl.split(), model.split()
-    if i[:1] != m[:1]:
-        return "diff:sequential-path"
-    return "diff:parallel-run"
+        # `K<n>:` = the failing call is on an engine that has already run n other knowledge bases
+        return "oracle:" + re.sub(r"K\d+", "K", re.sub(r"P\d+", "P", oracle.replace("fail ", "")))
+    si, sm = _stages(impl), _stages(model)
+    later = ""
+    for k, (i, m) in enumerate(zip(si, sm)):
+        if not _agree_stage(i, m):
+            later = "later-stage:" if k > 0 else ""
+            if i[:1] != m[:1]:
+                return "diff:" + later + "sequential-path"
+            break
+    return "diff:" + later + "parallel-run"
 
 
 LEVEL_TEXT = ("Lean 4 theorems (kernel-checked, unbounded: every read-only evaluator/action semantics, every configuration with "
